@@ -427,6 +427,258 @@ def _negate(t: ast.AST) -> ast.AST:
     return ast.copy_location(ast.UnaryOp(op=ast.Not(), operand=t), t)
 
 
+class _GenInline:
+    """`for T in self.g(args): BODY` / `for T in g(args): BODY` where g is a plain generator function of the same class / module whose
+    every `yield E` is a statement of its own: the loop is replaced by g's body (its locals renamed apart, its parameters bound to the
+    arguments in call order) with every `yield E` replaced by `T = E; BODY`.  That is what the loop does - the generator runs up to
+    a yield, the body runs with the yielded value, the generator is resumed - provided that
+      - BODY has no `break` / `continue` of this loop and the loop no `else` (they would leave / resume the generator),
+      - g has no `return`, no `yield from`, no nested scope, no global/nonlocal, no *args/**kwargs, is not overridden (defined once),
+      - no yield sits under a `try` body, a `finally`, a handler or a `with` (an exception from BODY never passes through g's
+        handlers: the generator is merely suspended while BODY runs).
+    The pinned tree contains no generator functions: it is unchanged by this pass."""
+
+    def __init__(self):
+        self.inlined = 0
+        self.dropped: List[str] = []
+        self._k = 0
+
+    def visit(self, tree: ast.Module) -> None:
+        import copy
+        mod_gens: Dict[str, ast.FunctionDef] = {}
+        counts: Dict[str, int] = {}
+        for n in ast.walk(tree):
+            if isinstance(n, _FUNCS):
+                counts[n.name] = counts.get(n.name, 0) + 1
+        for st in tree.body:
+            if isinstance(st, ast.FunctionDef) and counts.get(st.name) == 1 and self._eligible(st, None):
+                mod_gens[st.name] = st
+        for c in [tree] + [x for x in ast.walk(tree) if isinstance(x, ast.ClassDef)]:
+            cls_gens: Dict[str, Tuple[ast.FunctionDef, str]] = {}
+            if isinstance(c, ast.ClassDef):
+                for st in c.body:
+                    if isinstance(st, ast.FunctionDef) and counts.get(st.name) == 1:
+                        kind = self._method_kind(st)
+                        if kind is not None and self._eligible(st, kind):
+                            cls_gens[st.name] = (st, kind)
+            for fn in (c.body if isinstance(c, ast.ClassDef) else tree.body):
+                if isinstance(fn, _FUNCS):
+                    for _ in range(4):
+                        if not self._rewrite_in(fn, fn, mod_gens, cls_gens, copy):
+                            break
+        if self.inlined:
+            # a private generator nothing refers to any more (every loop over it was replaced by its body) is dead code: dropped
+            for c in [tree] + [x for x in ast.walk(tree) if isinstance(x, ast.ClassDef)]:
+                for st in list(c.body):
+                    if isinstance(st, ast.FunctionDef) and st.name.startswith("_") and not st.name.startswith("__") and counts.get(st.name) == 1 \
+                            and any(isinstance(x, ast.Yield) for x in _own_nodes(st)):
+                        refs = [x for x in ast.walk(tree) if (isinstance(x, ast.Name) and x.id == st.name) or (isinstance(x, ast.Attribute) and x.attr == st.name)
+                                or (isinstance(x, ast.Constant) and x.value == st.name)]
+                        if not refs:
+                            c.body.remove(st)
+                            self.dropped.append(st.name)
+
+    @staticmethod
+    def _method_kind(st: ast.FunctionDef) -> Optional[str]:
+        if not st.decorator_list:
+            return "method"
+        if len(st.decorator_list) == 1 and isinstance(st.decorator_list[0], ast.Name) and st.decorator_list[0].id in ("staticmethod", "classmethod"):
+            return st.decorator_list[0].id
+        return None
+
+    def _eligible(self, g: ast.FunctionDef, kind: Optional[str]) -> bool:
+        if kind is None and g.decorator_list:
+            return False
+        a = g.args
+        if a.vararg or a.kwarg:
+            return False
+        yields = 0
+        for n in _own_nodes(g):
+            if isinstance(n, (ast.YieldFrom, ast.Return, ast.Global, ast.Nonlocal, ast.Await) + _FUNCS + (ast.Lambda, ast.ClassDef)):
+                return False
+            if isinstance(n, ast.Yield):
+                yields += 1
+        if not 1 <= yields <= 3:
+            return False
+        # every yield is a statement of its own, outside protected regions
+        ok = [0]
+
+        def blocks(body: List[ast.stmt], protected: bool) -> bool:
+            for st in body:
+                if isinstance(st, ast.Expr) and isinstance(st.value, ast.Yield):
+                    if protected or st.value.value is None:
+                        return False
+                    ok[0] += 1
+                    continue
+                if any(isinstance(x, ast.Yield) for x in ast.walk(st)) and not isinstance(st, (ast.For, ast.While, ast.If, ast.Try)):
+                    return False
+                if isinstance(st, (ast.For, ast.While)):
+                    if not blocks(st.body, protected) or not blocks(st.orelse, protected):
+                        return False
+                elif isinstance(st, ast.If):
+                    if not blocks(st.body, protected) or not blocks(st.orelse, protected):
+                        return False
+                elif isinstance(st, ast.Try):
+                    if not blocks(st.body, True) or not blocks(st.finalbody, True) or any(not blocks(h.body, True) for h in st.handlers):
+                        return False
+                    if not blocks(st.orelse, protected or bool(st.finalbody)):
+                        return False
+            return True
+
+        return blocks(g.body, False) and ok[0] == yields
+
+    def _rewrite_in(self, fn, node, mod_gens, cls_gens, copy) -> bool:
+        """one replacement at most (the tree changes under the walk); True when something was replaced"""
+        selfname = fn.args.args[0].arg if fn.args.args else None
+        for fld, val in ast.iter_fields(node):
+            if not isinstance(val, list) or not val or not isinstance(val[0], ast.stmt):
+                continue
+            for i, st in enumerate(val):
+                if isinstance(st, _FUNCS + (ast.ClassDef,)):
+                    continue
+                if isinstance(st, ast.For) and not st.orelse:
+                    new = self._expand(st, selfname, mod_gens, cls_gens, copy)
+                    if new is not None:
+                        val[i:i + 1] = new
+                        self.inlined += 1
+                        return True
+                if self._rewrite_in(fn, st, mod_gens, cls_gens, copy):
+                    return True
+        for h in getattr(node, "handlers", []) or []:
+            if self._rewrite_in(fn, h, mod_gens, cls_gens, copy):
+                return True
+        return False
+
+    def _expand(self, loop: ast.For, selfname: Optional[str], mod_gens, cls_gens, copy) -> Optional[List[ast.stmt]]:
+        call = loop.iter
+        if not isinstance(call, ast.Call) or any(isinstance(a, ast.Starred) for a in call.args) or any(k.arg is None for k in call.keywords):
+            return None
+        g = None
+        recv_self = None
+        if isinstance(call.func, ast.Name) and call.func.id in mod_gens:
+            g, kind = mod_gens[call.func.id], None
+        elif isinstance(call.func, ast.Attribute) and isinstance(call.func.value, ast.Name) and call.func.value.id == selfname and selfname is not None \
+                and call.func.attr in cls_gens:
+            g, kind = cls_gens[call.func.attr]
+            if kind == "classmethod":
+                return None
+            recv_self = selfname if kind == "method" else None
+        if g is None:
+            return None
+        # the loop body neither leaves nor resumes the generator by itself
+        def own_jumps(body) -> bool:
+            for st in body:
+                for x in ast.walk(st):
+                    pass
+            stack = list(body)
+            while stack:
+                x = stack.pop()
+                if isinstance(x, (ast.Break, ast.Continue)):
+                    return True
+                if isinstance(x, (ast.For, ast.AsyncFor, ast.While) + _FUNCS + (ast.ClassDef, ast.Lambda)):
+                    # (a `break` / `continue` inside a nested loop belongs to that loop; its `else` clause does not)
+                    stack.extend(getattr(x, "orelse", []) if not isinstance(x, _FUNCS + (ast.ClassDef, ast.Lambda)) else [])
+                    continue
+                stack.extend(ast.iter_child_nodes(x))
+            return False
+
+        if own_jumps(loop.body):
+            return None
+        params = [p.arg for p in g.args.posonlyargs + g.args.args]
+        if g is not None and cls_gens and g.name in cls_gens and cls_gens[g.name][1] == "method":
+            gself, params = params[0], params[1:]
+        else:
+            gself = None
+        kwonly = [p.arg for p in g.args.kwonlyargs]
+        bound: Dict[str, ast.expr] = {}
+        order: List[str] = []
+        if len(call.args) > len(params):
+            return None
+        for p_, a_ in zip(params, call.args):
+            bound[p_] = a_
+            order.append(p_)
+        for k in call.keywords:
+            if k.arg in bound or k.arg not in params + kwonly or k.arg in [q.arg for q in g.args.posonlyargs]:
+                return None
+            bound[k.arg] = k.value
+            order.append(k.arg)
+        plain = g.args.posonlyargs + g.args.args
+        defaults = dict(zip([p.arg for p in plain[len(plain) - len(g.args.defaults):]], g.args.defaults))
+        defaults.update({p.arg: d for p, d in zip(g.args.kwonlyargs, g.args.kw_defaults) if d is not None})
+        for p_ in params + kwonly:
+            if p_ not in bound:
+                if p_ not in defaults or not isinstance(defaults[p_], ast.Constant):
+                    return None
+                bound[p_] = defaults[p_]
+                order.append(p_)
+        self._k += 1
+        pre = f"_g{self._k}_"
+        locals_ = set(params + kwonly)
+        for n in _own_nodes(g):
+            if isinstance(n, ast.Name) and isinstance(n.ctx, (ast.Store, ast.Del)):
+                locals_.add(n.id)
+            elif isinstance(n, ast.ExceptHandler) and n.name:
+                locals_.add(n.name)
+        if gself is not None and gself in locals_ - {gself} and False:
+            return None
+        body = [copy.deepcopy(st) for st in g.body if not (isinstance(st, ast.Expr) and isinstance(st.value, ast.Constant))]
+        holder = ast.Module(body=body, type_ignores=[])
+        # a parameter g never re-binds, given a plain name the loop body never re-binds (or a constant): written as that name
+        g_stores = {n.id for n in _own_nodes(g) if isinstance(n, ast.Name) and isinstance(n.ctx, (ast.Store, ast.Del))}
+        body_stores = {x.id for b in loop.body for x in ast.walk(b) if isinstance(x, ast.Name) and isinstance(x.ctx, (ast.Store, ast.Del))}
+        body_stores |= {x.id for x in ast.walk(loop.target) if isinstance(x, ast.Name)}
+        direct = {p_: bound[p_] for p_ in order if p_ not in g_stores and (isinstance(bound[p_], ast.Constant) or isinstance(bound[p_], ast.Name) and bound[p_].id not in body_stores)}
+        order = [p_ for p_ in order if p_ not in direct]
+        for n in ast.walk(holder):
+            for fld, val in ast.iter_fields(n):
+                if isinstance(val, ast.Name) and val.id in direct and isinstance(val.ctx, ast.Load):
+                    setattr(n, fld, ast.copy_location(copy.deepcopy(direct[val.id]), val))
+                elif isinstance(val, list):
+                    for j, v_ in enumerate(val):
+                        if isinstance(v_, ast.Name) and v_.id in direct and isinstance(v_.ctx, ast.Load):
+                            val[j] = ast.copy_location(copy.deepcopy(direct[v_.id]), v_)
+        for n in ast.walk(holder):
+            if isinstance(n, ast.Name):
+                if gself is not None and n.id == gself:
+                    if not isinstance(n.ctx, ast.Load):
+                        return None
+                    n.id = recv_self
+                elif n.id in locals_ and n.id not in direct:
+                    n.id = pre + n.id
+            elif isinstance(n, ast.ExceptHandler) and n.name in locals_:
+                n.name = pre + n.name
+
+        def splice(stmts: List[ast.stmt]) -> List[ast.stmt]:
+            out: List[ast.stmt] = []
+            for st in stmts:
+                if isinstance(st, ast.Expr) and isinstance(st.value, ast.Yield):
+                    tgt = copy.deepcopy(loop.target)
+                    val = st.value.value
+                    if isinstance(tgt, ast.Tuple) and isinstance(val, ast.Tuple) and len(tgt.elts) == len(val.elts) \
+                            and all(isinstance(t_, ast.Name) for t_ in tgt.elts) and all(isinstance(v_, (ast.Name, ast.Constant)) for v_ in val.elts):
+                        # `a, b = x, y` with plain names on both sides (disjoint: g's locals were renamed apart): one binding each
+                        for t_, v_ in zip(tgt.elts, val.elts):
+                            out.append(ast.copy_location(ast.Assign(targets=[t_], value=v_), loop))
+                    else:
+                        out.append(ast.copy_location(ast.Assign(targets=[tgt], value=val), loop))
+                    out += [copy.deepcopy(b) for b in loop.body]
+                    continue
+                for fld in ("body", "orelse", "finalbody"):
+                    sub = getattr(st, fld, None)
+                    if isinstance(sub, list) and sub and isinstance(sub[0], ast.stmt):
+                        setattr(st, fld, splice(sub))
+                for h in getattr(st, "handlers", []) or []:
+                    h.body = splice(h.body)
+                out.append(st)
+            return out
+
+        new = [ast.copy_location(ast.Assign(targets=[ast.Name(id=pre + p_, ctx=ast.Store())], value=bound[p_]), loop) for p_ in order]
+        new += splice(body)
+        for st in new:
+            ast.fix_missing_locations(st)
+        return new
+
+
 class _LoopShapes(ast.NodeTransformer):
     """Two spellings of the same loops are brought to one:
     `while True: if not C: break; BODY`  ->  `while C: BODY`            (the loop condition is a condition again)
@@ -620,6 +872,11 @@ def _clone(e: ast.AST) -> ast.AST:
 
 
 def normalise(tree: ast.Module) -> ast.Module:
+    gi = _GenInline()
+    if any(isinstance(x, ast.Yield) for x in ast.walk(tree)):
+        _Fold().visit(tree)  # (`gen = self._items(...)` followed by `for x in gen:` becomes a loop over the call)
+        gi.visit(tree)
+    tree._tpsa_gen_inlined = gi.inlined  # type: ignore[attr-defined]
     ls = _LoopShapes()
     ls.visit(tree)
     sk = _SinkTail()
